@@ -70,7 +70,11 @@ func VerifMergeSlices(la, lb, lc int) {
 	a := vSortedInts(la, "a", vCoarse)
 	b := vSortedInts(lb, "b", vCoarse)
 	c := vSortedInts(lc, "c", vCoarse)
-	pre := make([]int, 0, la+lb+lc)
+	// a reused buffer: already holding something, and large enough
+	pre := make([]int, (la+lb+lc+1)/2, la+lb+lc)
+	for i := range pre {
+		pre[i] = -7
+	}
 	var out []int
 	switch {
 	case la == 0 && lb == 0 && lc == 0:
